@@ -37,3 +37,5 @@ def table_checks(ctx, pols, cfgs, parts):
     for backend, byname in pols.items():
         for name, pol in byname.items():
             tables.check_policy(ctx, backend, name, cfgs[name][1], pol, parts)
+        if "stable" in parts:
+            tables.check_fixpoint(ctx, backend, byname)
